@@ -117,6 +117,24 @@ class vf_tab:
 
 
 @define_app
+class vf_ser1:
+    """like vf_step1, but what it returns on success is a plain serialisable value"""
+
+    def __init__(self, outcomes: dict):
+        self.outcomes = outcomes
+
+    def main(self, seqs: UnalignedSeqsType) -> SerialisableType:
+        r = _behave(self, seqs, self.outcomes)
+        return {"n": int(seqs.num_seqs)} if r is seqs else r
+
+
+@define_app
+def vf_any(val: SerialisableType) -> SerialisableType:
+    """a step that takes anything serialisable: it says what it was given"""
+    return {"seen": type(val).__name__}
+
+
+@define_app
 def vf_consume(seqs: UnalignedSeqsType, wanted: list) -> UnalignedSeqsType:
     """an app made from a function that uses up the list it is given: every record must still see the list as constructed"""
     names = []
@@ -570,6 +588,19 @@ def check_passthrough(acc):
             if not ok or got.origin != "vf_step1":
                 acc.fail(f"NotCompleted changed while passing through a later step [outcome {o}]", {"passthrough": o}, {"got": str(got), "first": str(first)})
             acc.outcome(("pass", o, str(type(got).__name__)))
+        # the later step may be one that accepts any serialisable value: it is skipped all the same
+        for o in ("raise", "none", "nc"):
+            for tail_label, tail in (("any", lambda: vf_any()),):
+                case = {"passthrough": o, "later_step": tail_label}
+                acc.case(case)
+                first = (loader + vf_ser1({"a": o}))(members[0])
+                got = (loader + vf_ser1({"a": o}) + tail())(members[0])
+                acc.transitions += 1
+                ok = isinstance(got, NotCompleted) and isinstance(first, NotCompleted) and (got.type, got.origin, got.message.splitlines()[-1:], got.source) == (
+                    first.type, first.origin, first.message.splitlines()[-1:], first.source)
+                if not ok:
+                    acc.fail(f"NotCompleted did not pass a later step that accepts any serialisable value [outcome {o}]", case, {"got": str(got)[:200], "first": str(first)[:200]})
+                acc.outcome(("pass-any", o, tail_label, str(type(got).__name__)))
         # a NotCompleted given directly to an app comes back as the same object
         nc = NotCompleted("FAIL", "here", "msg", source="a.fasta")
         for app in (vf_step1({}), vf_step1({}) + vf_step2({})):
